@@ -321,17 +321,45 @@ def a_socks_client_method_guard(prog):
         return False, "SocksRequest::write_v5 not found"
     f = fs[0]
     auth = [c for c in f.calls if re.search(r"SocksAuthClient::auth_v5$", c.path or "")]
-    cont = [c for c in f.calls if re.search(r"slice::<impl \[T\]>::contains$", c.path or "")]
-    if not auth or not cont:
-        return False, "write_v5: auth_v5 call or methods.contains() check missing"
+    if not auth:
+        return False, "write_v5: auth_v5 call missing"
     for a in auth:
-        ok = False
-        for g in cont:
-            for (sb, tt, ft) in bool_branch(f, g.dest[0]):
-                if edge_dominates(f, sb, tt, a.bb):
-                    ok = True
+        # the selected method handed to auth_v5, and the edges on which it was found among the offered methods:
+        # `methods.contains(&m)` is true, or `*x == m` holds for an element x (the loop spelling, possibly through a found-flag)
+        pm = canon(f, a.args[2]) if len(a.args) > 2 else None
+        guards = []
+        for g in f.calls:
+            if re.search(r"slice::<impl \[T\]>::contains$", g.path or "") and len(g.args) > 1 and g.dest:
+                roots = set()
+                for k, info in f.trace(op_base(g.args[1])) if op_base(g.args[1]) is not None else []:
+                    if k in ("ref", "place") and info and all(x == "*" for x in info[1:]):
+                        roots.add(canon(f, {"m": [info[0]]}))
+                if pm is None or pm in roots:
+                    for (sb, tt, ft) in bool_branch(f, g.dest[0]):
+                        guards.append((sb, tt))
+        if pm is not None:
+            for (sb, tb, cop, x, y) in _cmp_facts(f):
+                if cop == "Eq" and (canon(f, x) == pm or canon(f, y) == pm) and canon(f, x) != canon(f, y):
+                    guards.append((sb, tb))
+        ok = any(edge_dominates(f, sb, tb, a.bb) for (sb, tb) in guards)
         if not ok:
-            return False, "write_v5: auth_v5 is not dominated by the true edge of methods.contains(&peer_method)"
+            # a found-flag: a bool assigned only constants, `true` only behind a guard edge, and auth_v5 behind its true edge
+            for l in range(len(f.locals)):
+                ds = f.defs.get(l, [])
+                if len(ds) < 2 or f.local_ty(l)["k"] != "bool":
+                    continue
+                vals = [(b, const_int(rv["a"]) if (i != "term" and rv["k"] == "use") else None) for (b, i, rv) in ds]
+                if any(v is None for b, v in vals):
+                    continue
+                trues = [b for b, v in vals if v == 1]
+                if not trues or not all(any(edge_dominates(f, sb, tb, b) for (sb, tb) in guards) for b in trues):
+                    continue
+                for (sb, tt, ft) in bool_branch(f, l, as_variable=True):
+                    if edge_dominates(f, sb, tt, a.bb):
+                        ok = True
+        if not ok:
+            return False, "write_v5: auth_v5 is not dominated by an edge on which the selected method was found among the offered ones " \
+                          "(methods.contains(&peer_method), or an element compared equal to it)"
     sm = prog.find(r"PasswordAuth as common::socks::SocksAuthClient<.*>::supported_methods$", "redproxy_rs")
     if len(sm) != 1:
         return False, "PasswordAuth::supported_methods not found"
@@ -671,10 +699,10 @@ def a_c09_ctor_total(prog):
         c09.run(tmp, prog)
     except Exception as e:
         return False, "C09 grammar extraction failed: %s" % e
-    bad = [f for f in tmp.findings if f.rule == "R4-ctor" and "missing-arm" in f.key]
+    bad = [f for f in tmp.findings if f.rule == "R4-ctor" and ("missing-arm" in f.key or "case-fold" in f.key)]
     if bad:
-        return False, "grammar literal without constructor arm: %s" % bad[0].key
-    return True, "every grammar literal has a parse1/parse2/parse_many arm"
+        return False, "grammar literal that reaches the default arm of its constructor: %s" % bad[0].key
+    return True, "every grammar literal has a parse1/parse2/parse_many arm (keyword operators are looked up case-folded)"
 
 
 def a_parse_many_shape(prog):
